@@ -108,6 +108,44 @@ def work_tree(item):
     return res
 
 
+# Guarded traps (round 6): the right operand of `&&` / `||` has NO call in it (nothing logs), but it stops the program
+# when it is evaluated although the left operand has decided the result: division / remainder by a variable that is
+# zero, of every kind.  The value printed must be the left operand's decision and the run must not fail.
+def _guarded_traps():
+    out = []
+    zeros = [("int", "gz = 0", "ga = 12"), ("bigint", "gz = B0", "ga = B12"), ("float", "gz = 0.0", "ga = 1.5"), ("byte", "gz = 0b0", "ga = 0b11")]
+    for kind, zdecl, adecl in zeros:
+        for op in ("/", "%"):
+            if kind == "float" and op == "%":
+                pass
+            decl = "%s\n%s\ngone = 1\n" % (zdecl, adecl)
+            body = [
+                ("and_stmt", "print gz != gz - gz + gz && ga %s gz == ga" % op, "false") if False else None,
+                ("and_print", "print gone == 2 && ga %s gz == ga" % op, "false"),
+                ("or_print", "print gone == 1 || ga %s gz == ga" % op, "true"),
+                ("and_assigned", "gr = gone == 2 && ga %s gz == ga\nprint gr" % op, "false"),
+                ("or_assigned", "gr = gone == 1 || ga %s gz == ga\nprint gr" % op, "true"),
+                ("and_if", "if gone == 2 && ga %s gz == ga {\n  print \"yes\"\n} else {\n  print \"no\"\n}" % op, "no"),
+                ("or_while", "gw = 0\nwhile gw == 0 && (gone == 1 || ga %s gz == ga) {\n  gw = 1\n}\nprint gw" % op, "1"),
+                ("and_argument", "print tb(1, gone == 2 && ga %s gz == ga)" % op, "tb 1\nfalse"),
+                ("and_in_function", "gf = fn(p: int) -> bool {\n  return p == 2 && ga %s gz == ga\n}\nprint gf(gone)" % op, "false"),
+                ("or_in_function_params", "gf = fn(total: int, parts: int) -> bool {\n  return parts == 0 || total %s parts < 100\n}\nprint gf(500, 0)" % op.replace("%", "/"), "true") if kind == "int" else None,
+                ("and_nested", "print (gone == 2 && ga %s gz == ga) || gone == 1" % op, "true"),
+                ("and_chain", "print gone == 1 && gone == 2 && ga %s gz == ga" % op, "false"),
+                ("and_after_call", "print tb(1, false) && ga %s gz == ga" % op, "tb 1\nfalse"),
+            ]
+            for ent in body:
+                if ent is None:
+                    continue
+                name, stmt, exp = ent
+                out.append(("trap:%s:%s:%s" % (kind, "div" if op == "/" else "rem", name), decl + stmt + "\n", exp.split("\n"),
+                            "the right operand of a decided `&&` / `||` was evaluated: it divides by a zero %s variable" % kind))
+    return out
+
+
+PINNED += _guarded_traps()
+
+
 def work_pinned(item):
     sid, src, exp_lines = item
     r = run_src(src)
